@@ -16,6 +16,8 @@ def jobs(res):
         tlc.run("UrlMC", "UrlMC_asis.cfg", cache=True, timeout=600)
         tlc.run("Repro", "Repro_asis.cfg", cache=True, timeout=3000)
         engine.oob_demo(res)
+        engine.export_family("q")
+        engine.export_family("t3s")
 
     return [
         shell,
